@@ -42,6 +42,8 @@ import Driver.AdpcmEnc
 import Driver.AbsTwin
 import Driver.AlacCore
 import Driver.AbsMeta
+import Driver.Chmap
+import Driver.Probe
 open Sf
 
 def lawOf (s : String) : Option G711.Law :=
@@ -129,4 +131,6 @@ def main (args : List String) : IO UInt32 := do
   | "abs-twin" :: rest => AbsTwinDriver.cmd rest
   | "alaccore" :: rest => Driver.AlacCore.cmd rest
   | "abs-meta" :: rest => AbsMetaDriver.cmd rest
+  | "chmap" :: rest => ChmapDriver.main rest
+  | "probe" :: rest => ProbeDriver.main rest
   | _ => IO.eprintln "usage: sfmodel <g711|...> ..."; return 2
